@@ -178,6 +178,12 @@ class LanguageClassesFactory:
         self._generate_assets()
         self._generate_associations()
 
+        # A language is not required to define associations (or assets), but
+        # an empty 'oneOf' list is not a valid JSON schema.
+        for entry in ('LanguageAsset', 'LanguageAssociation'):
+            if not self.json_schema['definitions'][entry]['oneOf']:
+                del self.json_schema['definitions'][entry]['oneOf']
+
         if logger.isEnabledFor(logging.DEBUG):
             # Avoid running json.dumps when not in debug
             logger.debug(json.dumps(self.json_schema, indent = 2))
